@@ -830,6 +830,12 @@ func (e *specEnv) call(c SCall) specVal {
 		case "contains":
 			a, b := e.eval(c.Args[0]), e.eval(c.Args[1])
 			return specVal{V: Sc{app(SBool, "str.contains", a.V.(Sc).T, b.V.(Sc).T)}, T: types.Typ[types.Bool]}
+		case "called", "errSeen":
+			callee := e.resolveFuncRef(c.Args[0])
+			if callee == nil {
+				panic(specErr("%s(): cannot resolve function %v", id.Name, c.Args[0]))
+			}
+			return specVal{V: Sc{e.st.ghostGet(id.Name + "#" + FuncKey(callee))}, T: types.Typ[types.Bool]}
 		case "fresh":
 			// fresh(p): p was allocated during the call (not alive in the old state)
 			a := e.eval(c.Args[0])
@@ -1004,4 +1010,29 @@ func (e *specEnv) specFunc(sf *SpecFunc, args []SExpr) specVal {
 	}
 	val, _ := unflatten(rt, out)
 	return specVal{V: val, T: rt}
+}
+
+// resolveFuncRef resolves `f`, `pkg.f` or `pkg/sub.f` written in a contract to a function of the program.
+func (e *specEnv) resolveFuncRef(x SExpr) *ssa.Function {
+	v := e.v
+	txt, ok := exprToTypeText(x)
+	if !ok {
+		return nil
+	}
+	if f := v.w.Funcs[txt]; f != nil {
+		return f
+	}
+	if pkg := e.pkgOfFn(); pkg != nil {
+		if f := v.w.Funcs[shortPkg(pkg.Path())+"."+txt]; f != nil {
+			return f
+		}
+	}
+	if k := strings.LastIndex(txt, "."); k > 0 {
+		if p := v.w.findPackage(txt[:k]); p != nil {
+			if fo, ok := p.Scope().Lookup(txt[k+1:]).(*types.Func); ok {
+				return v.w.Prog.FuncValue(fo)
+			}
+		}
+	}
+	return nil
 }
